@@ -269,7 +269,7 @@ def run(ctx):
         k = min(300, n - done)
         run_cases(ctx, gen_types(ctx, k, depth))
         done += k
-    for mode in (True, "newtype", "typealias"):
+    for mode in S.WRAP_MODES:
         if ctx.time_left() > 40:
             ctx.bump(f"wrapper cases:{mode}", 150 if ctx.tier == "quick" else 2000)
             run_cases(ctx, gen_types(ctx, 150 if ctx.tier == "quick" else 2000, depth), annot=mode)
